@@ -134,7 +134,7 @@ fn plans(tier: Tier) -> Vec<SectionPlan> {
         "SliderMultiplier: 1e999",
         "CircleSize: inf",
     ];
-    let editor: Vec<&'static str> = vec!["Bookmarks: 1,2", "BeatDivisor: 8", "BeatDivisor: x", "GridSize: 2147483648", "DistanceSpacing: NaN", "TimelineZoom: 3"];
+    let editor: Vec<&'static str> = vec!["Bookmarks: 1,2", "Bookmarks: 3,x,5", "Bookmarks: x", "Bookmarks: 7,", "BeatDivisor: 8", "BeatDivisor: x", "GridSize: 2147483648", "DistanceSpacing: NaN", "TimelineZoom: 3"];
     let metadata: Vec<&'static str> = vec!["Title: a", "BeatmapID: 5", "BeatmapID: x", "BeatmapSetID: 2147483648", "BeatmapSetID: 7", "Artist: b"];
     vec![
         SectionPlan {
